@@ -226,10 +226,11 @@ Fixpoint unexport (fuel : nat) (xsecret : bool) (v : xval) : chain :=
         [LScalar (s || xsecret) u
            (match sc with SNull => ScType "null" | SBool _ => ScType "boolean" | SNum _ => ScType "number" | SStr _ => ScType "string" end) sc]
     | XArr s u l =>
-        let cs := map (unexport f xsecret) l in
+        (* a value inside a secret composite is secret *)
+        let cs := map (unexport f (s || xsecret)) l in
         [LArr (s || xsecret) u (ScArray (map top_sch cs) (Some ScNever)) cs]
     | XObj s u m =>
-        let cm := fold_left (fun acc kv => ainsert (fst kv) (unexport f xsecret (snd kv)) acc) m [] in
+        let cm := fold_left (fun acc kv => ainsert (fst kv) (unexport f (s || xsecret) (snd kv)) acc) m [] in
         [LObj (s || xsecret) u (ScObject (map (fun kc => (fst kc, top_sch (snd kc))) cm) None) cm]
     end
   end.
